@@ -18,7 +18,34 @@ mod cli_common;
 use cli_common::*;
 
 const CLASS_F11: &str = "context-separator-terminator-under-crlf-or-null-data";
-const CLASS_BINSEP: &str = "binary-file-message-not-separated-single-threaded";
+const CLASS_STATS: &str = "stats-trailer-separated-like-a-block-multithreaded";
+
+/// Cuts the `--stats` trailer (a blank line, then 8 counter lines) off the end of `out`.
+fn split_stats(out: &[u8]) -> Option<(Vec<u8>, Vec<u8>)> {
+    let lines = split_lines(out);
+    if lines.len() < 9 {
+        return None;
+    }
+    let tail = &lines[lines.len() - 9..];
+    let is_counter = |l: &[u8], what: &str| {
+        let t = String::from_utf8_lossy(l);
+        let t = t.trim_end_matches('\n');
+        t.strip_suffix(what).map_or(false, |n| !n.is_empty() && n.bytes().all(|b| b.is_ascii_digit()))
+    };
+    if tail[0] != b"\n" || !is_counter(tail[1], " matches") || !is_counter(tail[2], " matched lines")
+        || !is_counter(tail[3], " files contained matches") || !is_counter(tail[4], " files searched")
+        || !is_counter(tail[5], " bytes printed") || !is_counter(tail[6], " bytes searched") {
+        return None;
+    }
+    let cut: usize = lines[..lines.len() - 9].iter().map(|l| l.len()).sum();
+    Some((out[..cut].to_vec(), out[cut..].to_vec()))
+}
+
+/// the schedule-independent counters of a trailer: matches, matched lines, files with matches, files searched, bytes searched
+fn stats_counters(trailer: &[u8]) -> Vec<String> {
+    let l = split_lines(trailer);
+    [1usize, 2, 3, 4, 6].iter().filter_map(|i| l.get(*i)).map(|x| String::from_utf8_lossy(x).trim_end().to_string()).collect()
+}
 
 /// the block is nothing but `path: binary file matches (found …)`
 fn is_binmsg(path: &str, block: &[u8]) -> bool {
@@ -39,14 +66,18 @@ fn gen_tree_case(rng: &mut Rng, thorough: bool) -> String {
     let mode = *rng.pick(MODES);
     let crlf = matches!(mode, "nohead" | "nohead-ctx" | "heading" | "heading-ctx") && rng.chance(1, 8);
     let ctx = if mode == "files" { "0" } else { *rng.pick(CTXS) };
-    let null = matches!(mode, "nohead" | "nohead-o" | "count" | "count-matches") && rng.chance(1, 6);
+    let null = mode != "json" && rng.chance(1, 6);
+    let stats = mode != "files" && mode != "json" && rng.chance(1, 5);
+    let mc = if mode != "files" && rng.chance(1, 6) { rng.range(1, 3) } else { 0 };
     format!(
-        "tree seed={} mode={} ctx={} ln={} null={} roots={} links={} bin={} files={} big={} slow={} crlf={} reps={}",
+        "tree seed={} mode={} ctx={} ln={} null={} stats={} mc={} roots={} links={} bin={} files={} big={} slow={} crlf={} reps={}",
         rng.below(1 << 30),
         mode,
         ctx,
         (mode != "files" && rng.chance(1, 4)) as u8,
         null as u8,
+        stats as u8,
+        mc,
         rng.chance(1, 3) as u8,
         rng.chance(1, 4) as u8,
         rng.chance(1, 4) as u8,
@@ -215,7 +246,11 @@ fn parse(mode: &str, out: &[u8], names: &BTreeSet<String>) -> Result<Parsed, Str
                     cur = None;
                     continue;
                 }
-                let text = String::from_utf8_lossy(body).to_string();
+                let mut text = String::from_utf8_lossy(body).to_string();
+                if cur.is_none() {
+                    // --null: the heading is `path NUL`, without a line terminator: the first result follows on the same line
+                    if let Some(k) = text.find('\0') { text.truncate(k); }
+                }
                 // `path: binary file matches (…)` is a block of its own, with or without a blank line before it
                 if let Some(name) = names.iter().find(|nm| text.starts_with(&format!("{}: binary file matches (found", nm))) {
                     if p.blocks.is_empty() {
@@ -324,6 +359,9 @@ fn run_tree(case: &str, ctx: &mut Ctx, drv: &mut Driver, rep: &mut Report) {
     let mode = mode.as_str();
     let cflag = f.get("ctx").map_or("0", |v| v.as_str());
     let (ln, null, roots) = (num("ln").unwrap_or(0), num("null").unwrap_or(0), num("roots").unwrap_or(0));
+    let (stats, mc) = (num("stats").unwrap_or(0) == 1 && mode != "files" && mode != "json", num("mc").unwrap_or(0));
+    // --null in the path-only modes: every path ends in NUL instead of a newline
+    let path_nul = null == 1 && matches!(mode, "l" | "files" | "files-without-match");
     if !MODES.contains(&mode) || !CTXS.contains(&cflag) {
         rep.notes.push(format!("unparsable case: {}", case));
         return;
@@ -384,6 +422,8 @@ fn run_tree(case: &str, ctx: &mut Ctx, drv: &mut Driver, rep: &mut Report) {
         if cflag != "0" { c.arg(format!("-{}", cflag)); }
         if ln == 1 { c.arg("-n"); }
         if null == 1 { c.arg("--null"); }
+        if stats { c.arg("--stats"); }
+        if mc > 0 && mode != "files" { c.arg("-m").arg(mc.to_string()); }
         if links == 1 { c.args(["-L", "--max-filesize", "500"]); }
         if crlf == 1 { c.arg("--crlf"); }
         if slow == 1 && mode != "files" { c.arg("--pre").arg(&script); }
@@ -394,8 +434,30 @@ fn run_tree(case: &str, ctx: &mut Ctx, drv: &mut Driver, rep: &mut Report) {
     let sep = sep_sx(mode, cflag, drv);
     let term = if crlf == 1 { "0d0a" } else { "0a" };
     let guard = drv.ask(&format!("c08.guard {} {}", sep, term)) == "1";
-    let out1 = run_cmd(&mut mk(1, &[]), None);
+    // what is compared as blocks: the output with NUL path terminators read as newlines, and without the --stats trailer
+    let prepare = |o: &mut RunOut| -> Result<Option<Vec<u8>>, String> {
+        if path_nul {
+            for b in o.stdout.iter_mut() { if *b == 0 { *b = b'\n'; } }
+        }
+        if !stats { return Ok(None); }
+        match split_stats(&o.stdout) {
+            Some((body, trailer)) => { o.stdout = body; Ok(Some(trailer)) }
+            None => Err(format!("--stats: the output does not end in the statistics trailer; it ends {}", show(&o.stdout[o.stdout.len().saturating_sub(200)..]))),
+        }
+    };
+    if path_nul { rep.branch("null:path-only-mode"); }
+    if stats { rep.branch("stats"); }
+    if mc > 0 { rep.branch("max-count"); }
+    let mut out1 = run_cmd(&mut mk(1, &[]), None);
     rep.eval();
+    let trailer1 = match prepare(&mut out1) {
+        Ok(t) => t,
+        Err(e) => {
+            rep.violation(Violation { kind: "impl_vs_spec".into(), class: "".into(), tie: "-j1 --stats trailer".into(), case: case.to_string(), detail: e });
+            remove_tree(&dir);
+            return;
+        }
+    };
     let p1 = match parse(mode, &out1.stdout, &names) {
         Ok(p) => p,
         Err(e) => {
@@ -417,7 +479,7 @@ fn run_tree(case: &str, ctx: &mut Ctx, drv: &mut Driver, rep: &mut Report) {
     if unhex(&m1).map_or(true, |m| m != canon_out(mode, &out1.stdout, &names)) {
         rep.violation(Violation {
             kind: "impl_vs_model".into(), class: "".into(),
-            tie: "rg -j1 output vs Model.BufWriter.outSeqB over its blocks (theorems seq_output, C08_binary_partial)".into(),
+            tie: "rg -j1 output vs Model.BufWriter.outSeqB over its blocks (theorems seq_output, C08_binary)".into(),
             case: case.to_string(),
             detail: format!("the -j1 output is not its blocks joined by the printer-owned separator; stdout starts {}", show(&out1.stdout[..out1.stdout.len().min(200)])),
         });
@@ -433,9 +495,16 @@ fn run_tree(case: &str, ctx: &mut Ctx, drv: &mut Driver, rep: &mut Report) {
     for r in 0..reps {
         // with several roots: few threads first (more roots than threads), then any
         let n = if !root_args.is_empty() && r < 2 { 2 + r as usize } else { 2 + ((seed as usize + 5 * r as usize) % 15) };
-        let outn = run_cmd(&mut mk(n, &[]), None);
+        let mut outn = run_cmd(&mut mk(n, &[]), None);
         rep.eval();
         rep.branch(&format!("threads:{}", n));
+        let trailern = match prepare(&mut outn) {
+            Ok(t) => t,
+            Err(e) => {
+                rep.violation(Violation { kind: "impl_vs_spec".into(), class: "".into(), tie: "-jN --stats trailer".into(), case: case.to_string(), detail: format!("-j{}: {}", n, e) });
+                continue;
+            }
+        };
         let pn = match parse(mode, &outn.stdout, &names) {
             Ok(p) => p,
             Err(e) => {
@@ -483,8 +552,16 @@ fn run_tree(case: &str, ctx: &mut Ctx, drv: &mut Driver, rep: &mut Report) {
             }
         }
         // C (multi-threaded path): the model rebuilds the -jN output from its blocks in the observed lock order
-        let mn = drv.ask(&format!("c08.par {} {}", sep, blocks_sx(&pn.blocks)));
-        if unhex(&mn).map_or(true, |m| m != canon_out(mode, &outn.stdout, &names)) {
+        // (with --stats the trailer is one more buffer handed to bufwtr.print: Model.BufWriter.outParStats)
+        let (mn, fulln) = match &trailern {
+            Some(t) => {
+                let mut full = outn.stdout.clone();
+                full.extend_from_slice(t);
+                (drv.ask(&format!("c08.parstats {} {} {}", sep, blocks_sx(&pn.blocks), hex(t))), full)
+            }
+            None => (drv.ask(&format!("c08.par {} {}", sep, blocks_sx(&pn.blocks))), canon_out(mode, &outn.stdout, &names)),
+        };
+        if unhex(&mn).map_or(true, |m| m != fulln) {
             rep.violation(Violation {
                 kind: "impl_vs_model".into(), class: "".into(),
                 tie: "rg -jN output vs Model.BufWriter.outPar over its blocks in lock order (theorem par_output)".into(),
@@ -511,17 +588,33 @@ fn run_tree(case: &str, ctx: &mut Ctx, drv: &mut Driver, rep: &mut Report) {
                 problems.push((format!("{} is missing from the -j{} output", path, n), ""));
             }
         }
-        if !pn.stray.is_empty() || !p1.stray.is_empty() {
-            problems.push((format!("separator lines outside the gaps between blocks: {:?}", pn.stray.iter().map(|s| show(s)).collect::<Vec<_>>()), ""));
-        }
         // separators: the model's separator line in every gap of both runs
         let sep_bytes: Option<Vec<u8>> = if sep == "none" { None } else { unhex(&sep) };
         let want1: Option<Vec<u8>> = sep_bytes.as_ref().map(|s| { let mut v = s.clone(); v.extend(unhex(term).unwrap_or_default()); v });
         let wantn: Option<Vec<u8>> = sep_bytes.as_ref().map(|s| { let mut v = s.clone(); v.push(b'\n'); v });
+        if !pn.stray.is_empty() || !p1.stray.is_empty() {
+            // class: the --stats trailer is handed to the buffer writer like a file's block. Mechanism test: --stats is on,
+            // a file separator is configured, something was printed, the only stray line of the -jN output is exactly that
+            // separator, directly in front of the trailer, and the -j1 output has none.
+            let mechanism = stats && trailern.is_some() && wantn.is_some() && !pn.blocks.is_empty()
+                && p1.stray.is_empty() && pn.stray.len() == 1 && Some(&pn.stray[0]) == wantn.as_ref()
+                && outn.stdout.ends_with(&pn.stray[0]);
+            let class = if mechanism { rep.branch(&format!("class:{}:attributed", CLASS_STATS)); CLASS_STATS }
+                else { if stats { rep.branch(&format!("class:{}:mechanism-absent", CLASS_STATS)); } "" };
+            problems.push((format!("separator lines outside the gaps between blocks: -j{} {:?}, -j1 {:?}", n,
+                pn.stray.iter().map(|s| show(s)).collect::<Vec<_>>(), p1.stray.iter().map(|s| show(s)).collect::<Vec<_>>()), class));
+        }
+        if let (Some(t1), Some(tn)) = (&trailer1, &trailern) {
+            rep.branch("stats:counters-compared");
+            if stats_counters(t1) != stats_counters(tn) {
+                problems.push((format!("--stats counters differ: -j1 {:?} / -j{} {:?}", stats_counters(t1), n, stats_counters(tn)), ""));
+            }
+        }
         for (i, g) in p1.seps.iter().enumerate() {
             if *g != want1 {
                 let (path, b) = &p1.blocks[i + 1];
-                let class = if g.is_none() && is_binmsg(path, b) { CLASS_BINSEP } else { "" };
+                let class = "";
+                let _ = b;
                 problems.push((format!("-j1: gap before the block of {} holds {:?}, the separator line is {:?}", path,
                     g.as_ref().map(|s| show(s)), want1.as_ref().map(|s| show(s))), class));
                 break;
@@ -535,8 +628,16 @@ fn run_tree(case: &str, ctx: &mut Ctx, drv: &mut Driver, rep: &mut Report) {
             }
         }
         if want1 != wantn && p1.blocks.len() >= 2 && !guard {
+            // class F11 — mechanism test: --crlf is on, a file separator is configured, and the two runs really
+            // wrote it with different terminators (`sep\r\n` in a -j1 gap, `sep\n` in a -jN gap)
+            let mechanism = crlf == 1
+                && sep_bytes.is_some()
+                && want1.as_ref().map_or(false, |w| w.ends_with(b"\r\n"))
+                && p1.seps.iter().any(|g| *g == want1)
+                && pn.seps.iter().any(|g| *g == wantn);
+            let class = if mechanism { rep.branch(&format!("class:{}:attributed", CLASS_F11)); CLASS_F11 } else { rep.branch(&format!("class:{}:mechanism-absent", CLASS_F11)); "" };
             problems.push((format!("separator between blocks: -j1 writes {:?}, -j{} writes {:?}",
-                want1.as_ref().map(|s| show(s)), n, wantn.as_ref().map(|s| show(s))), CLASS_F11));
+                want1.as_ref().map(|s| show(s)), n, wantn.as_ref().map(|s| show(s))), class));
         }
         if outn.exit() != out1.exit() {
             problems.push((format!("exit status {} with -j{}, {} with -j1", outn.exit(), n, out1.exit()), ""));
@@ -563,11 +664,27 @@ fn run_sort(case: &str, ctx: &mut Ctx, drv: &mut Driver, rep: &mut Report) {
     };
     ctx.counter += 1;
     let dir = fresh_dir(&ctx.scratch, &format!("s{}", ctx.counter));
-    build_tree(&dir, seed, nfiles as usize, false, false);
+    let tree = build_tree(&dir, seed, nfiles as usize, false, false);
     let flag = if kind == "sortr" { "--sortr" } else { "--sort" };
+    // sort key: path (default), modified, accessed, created — with ties: four distinct time stamps for all files.
+    // (access times are set ahead of the change times, so that reading the files does not move them.)
+    let key = f.get("key").map_or("path", |v| v.as_str());
+    if !matches!(key, "path" | "modified" | "accessed" | "created") {
+        rep.notes.push(format!("unparsable case: {}", case));
+        return;
+    }
+    let stamp = |i: usize| (i % 4) as u64 * 10;
+    for (i, n) in tree.names.iter().enumerate() {
+        if let Ok(fh) = std::fs::File::options().write(true).open(dir.join(n)) {
+            let m = std::time::UNIX_EPOCH + std::time::Duration::from_secs(1_700_000_000 + stamp(i));
+            let a = std::time::UNIX_EPOCH + std::time::Duration::from_secs(1_900_000_000 + stamp(i));
+            let _ = fh.set_times(std::fs::FileTimes::new().set_modified(m).set_accessed(a));
+        }
+    }
+    rep.branch(&format!("sort:key:{}", key));
     let mk = |threads: u64| -> Command {
         let mut c = Command::new(&ctx.rg);
-        c.current_dir(&dir).args(mode_args(mode)).arg(format!("-j{}", threads)).args([flag, "path"]);
+        c.current_dir(&dir).args(mode_args(mode)).arg(format!("-j{}", threads)).args([flag, key]);
         if mode != "files" { c.arg("needle"); }
         c
     };
@@ -587,13 +704,24 @@ fn run_sort(case: &str, ctx: &mut Ctx, drv: &mut Driver, rep: &mut Report) {
                 kind: "impl_vs_spec".into(), class: "".into(),
                 tie: "--sort: the output equals the single-threaded output exactly".into(),
                 case: case.to_string(),
-                detail: format!("-j{} {} path differs from -j1 (exit {} / {})", n, flag, outn.exit(), out1.exit()),
+                detail: format!("-j{} {} {} differs from -j1 (exit {} / {})", n, flag, key, outn.exit(), out1.exit()),
             });
             break;
         }
     }
     // sorted really means sorted: the paths appear in ascending (descending) order
-    if mode == "files" || mode == "l" {
+    if (mode == "files" || mode == "l") && matches!(key, "modified" | "accessed") {
+        // the listed paths are in non-decreasing (non-increasing) order of their time stamps; ties in any order
+        let stamps: Vec<u64> = out1.stdout_str().lines().filter_map(|l| tree.names.iter().position(|n| n == l)).map(stamp).collect();
+        let ok = stamps.windows(2).all(|w| if kind == "sortr" { w[0] >= w[1] } else { w[0] <= w[1] });
+        if !ok {
+            rep.violation(Violation {
+                kind: "impl_vs_spec".into(), class: "".into(), tie: "--sort modified/accessed: ordered by the time stamp".into(),
+                case: case.to_string(), detail: format!("time stamps in output order: {:?}", &stamps[..stamps.len().min(12)]),
+            });
+        }
+    }
+    if (mode == "files" || mode == "l") && key == "path" {
         let lines: Vec<String> = out1.stdout_str().lines().map(|s| s.to_string()).collect();
         let mut sorted = lines.clone();
         sorted.sort();
@@ -660,8 +788,13 @@ fn run_nulldata(case: &str, ctx: &mut Ctx, drv: &mut Driver, rep: &mut Report) {
     }
     let want = unhex(&drv.ask(&format!("c08.join 2d2d 00 {}", sx(&ordern)))).unwrap_or_default();
     if outn.stdout != want {
+        // class F11 — mechanism test: --null-data is on, and the separator really is `--\0` in the -j1 output
+        // and `--\n` in the -jN output
+        let contains = |h: &[u8], n: &[u8]| h.windows(n.len()).any(|w| w == n);
+        let mechanism = contains(&out1.stdout, b"\0--\0") && contains(&outn.stdout, b"\0--\n");
+        let class = if mechanism { rep.branch(&format!("class:{}:attributed", CLASS_F11)); CLASS_F11 } else { rep.branch(&format!("class:{}:mechanism-absent", CLASS_F11)); "" };
         rep.violation(Violation {
-            kind: "impl_vs_spec".into(), class: CLASS_F11.into(),
+            kind: "impl_vs_spec".into(), class: class.into(),
             tie: "rg -jN output is a permutation of the rg -j1 per-file blocks, separators exactly between blocks".into(),
             case: case.to_string(),
             detail: format!("--null-data -C1: -j1 writes {}, -j{} writes {}", show(&out1.stdout), n, show(&outn.stdout)),
@@ -776,7 +909,7 @@ fn main() {
         "C08",
         "tree: generated trees of 0-40 files (0-4000 lines each, match density 0-90%, up to 3 directory levels, optional slow \
          --pre on a third of the files, optional CRLF files with --crlf) searched with -j1 once and -jN (N in 2..16) 2x (thorough 6x) \
-         in modes no-heading, heading, -o, -c, --count-matches, -l, --files-without-match, --json, --files, each crossed with -A2/-B1/-C1/none, -n, --null (where lines stay newline-terminated) with several root paths (explicit files first, then directories, more roots than threads), with symlinks to files above / below --max-filesize followed by -L, and with binary files (NUL before the match) inside directories and as explicit arguments; sort: --sort/--sortr path with -jN \
+         in modes no-heading, heading, -o, -c, --count-matches, -l, --files-without-match, --json, --files, each crossed with -A2/-B1/-C1/none, -n, --null (where lines stay newline-terminated) with several root paths (explicit files first, then directories, more roots than threads), with symlinks to files above / below --max-filesize followed by -L, and with binary files (NUL before the match) inside directories and as explicit arguments; sort: --sort/--sortr path/modified/accessed/created (time stamps with ties) with -jN \
          vs -j1; nulldata: the two-file --null-data -C1 witness; failpre: a --pre command that exits 3 after its output on a third of the files. Non-trivial: at least two non-empty blocks. Distinct by case text. \
          JSON blocks are compared after removing the elapsed-time fields and the summary line.",
     );
@@ -792,8 +925,8 @@ fn main() {
         let n = args.cases.unwrap_or(if args.thorough { 900 } else { 90 });
         for i in 0..n {
             let case = if i % 8 == 7 {
-                format!("sort seed={} mode={} files={} n={} kind={}", rng.below(1 << 30), rng.pick(MODES), rng.range(2, 30), rng.range(2, 16),
-                    if rng.chance(1, 3) { "sortr" } else { "sort" })
+                format!("sort seed={} mode={} files={} n={} kind={} key={}", rng.below(1 << 30), rng.pick(MODES), rng.range(2, 30), rng.range(2, 16),
+                    if rng.chance(1, 3) { "sortr" } else { "sort" }, rng.pick(&["path", "path", "modified", "accessed", "created"]))
             } else {
                 gen_tree_case(&mut rng, args.thorough)
             };
@@ -801,9 +934,11 @@ fn main() {
             run_case(&case, &mut ctx, &mut drv, &mut rep);
         }
         run_case("nulldata n=2", &mut ctx, &mut drv, &mut rep);
-        for i in 0..(if args.thorough { 60 } else { 6 }) {
+        for i in 0..(if args.thorough { 90 } else { 18 }) {
             let mode = ["nohead", "heading", "nohead-ctx", "count", "json", "nohead"][i % 6];
-            run_case(&format!("failpre seed={} mode={} files={} n={}", rng.below(1 << 30), mode, rng.range(6, 30), rng.range(2, 16)), &mut ctx, &mut drv, &mut rep);
+            // mostly few threads and many files: a worker that met a failing file goes on to search others
+            let n = if i % 3 == 2 { rng.range(4, 16) } else { rng.range(2, 3) };
+            run_case(&format!("failpre seed={} mode={} files={} n={}", rng.below(1 << 30), mode, rng.range(12, 40), n), &mut ctx, &mut drv, &mut rep);
         }
     }
     if watchdog_retries() > 0 {
